@@ -1059,7 +1059,12 @@ function runWorld(job) {
   // creation must equal creation (sanity of the serialiser / reference model)
   {
     const f0 = freshTree(job, groupList, curD(), ctx.childState)
-    if (f0.s !== S(root)) {
+    if (f0.s !== S(root) && !deepEq(curD(), dec(job.data))) {
+      // a child wrote to the host's data while the host was being created (a model-bound property
+      // normalised by the child): that is an update of the host like any other
+      bump(ctx, 'probe.host_data_changed_during_creation')
+      violation('C06', 'update_during_creation_lost', `creation: a child changed the host's data while the host's template was being created; the live tree differs from a fresh creation with the data the host now holds\n${classifyMismatch(S(root), f0.s)}`)
+    } else if (f0.s !== S(root)) {
       CTX = null
       return { id: job.id, status: 'unexecutable', reason: 'two creations with the same data differ (serialiser or generator not deterministic): ' + classifyMismatch(S(root), f0.s) }
     }
